@@ -127,7 +127,10 @@ def make_driver(sc, nmgr, pers, yields, n_elem):
     a("  use m, only: dagrt_state_type, dagrt_initialize => initialize, dagrt_run => run, &")
     a("    dagrt_shutdown => shutdown" + (", ytype" if struct else ""))
     a("  implicit none")
-    a("  type(dagrt_state_type), target :: st")
+    # the state record lives on the heap in memory that is not zero-filled (ASan fills fresh
+    # allocations with 0xbe, MALLOC_PERTURB_ does the same for the plain build): initialize() must
+    # not rely on pointer components happening to be null
+    a("  type(dagrt_state_type), pointer :: st")
     a("  type(dagrt_state_type), pointer :: sp")
     a("  integer :: nruns, r, i")
     init_args = ["dagrt_state=sp"]
@@ -157,6 +160,7 @@ def make_driver(sc, nmgr, pers, yields, n_elem):
             else:
                 init_args.append("%s=%s" % (fname, lit(v)))
     L.extend(decl)
+    a("  allocate(st)")
     a("  sp => st")
     L.extend(setv)
     a("  call dagrt_initialize(%s)" % ", &\n    ".join(init_args))
@@ -209,6 +213,7 @@ def make_driver(sc, nmgr, pers, yields, n_elem):
     a("    flush(6)")
     a("  end do")
     a("  call dagrt_shutdown(dagrt_state=sp)")
+    a("  deallocate(st)")
     a("  write(*,'(A)') 'SHUTDOWN-DONE'")
     a("end program")
     return "\n".join(L) + "\n"
@@ -575,7 +580,8 @@ def run_fortran_engine(ctx, prop):
                             site=re.sub(r"[0-9]+", "N", (errs[0] if errs else "?"))[:80])
         ctx.count("probe:compiled")
         env = dict(os.environ, ASAN_OPTIONS="detect_leaks=1:halt_on_error=1:exitcode=23:allocator_may_return_null=1",
-                   UBSAN_OPTIONS="print_stacktrace=1:halt_on_error=1", LSAN_OPTIONS="exitcode=23")
+                   UBSAN_OPTIONS="print_stacktrace=1:halt_on_error=1", LSAN_OPTIONS="exitcode=23",
+                   MALLOC_PERTURB_="165")
         n_call = n_runs
         first_raise = next((i for i, r in enumerate(ref) if r["outcome"] == "raised"), None)
         q = subprocess.run([os.path.join(d, "prog")], input="%d\n" % n_call, cwd=d, env=env,
@@ -637,6 +643,10 @@ def run_fortran_engine(ctx, prop):
     if n_moves:
         ctx.count("probe:ut_move", n_moves)
     n_ut_temps = len([n for n, ty in sc.types.items() if ty in ("ut", "utv") and not n.startswith("<")])
+    if getattr(sc, "n_shrink", 0):
+        ctx.count("probe:array_overwritten_with_other_length", sc.n_shrink)
+    if getattr(sc, "n_condpair", 0):
+        ctx.count("probe:same_condition_twice", sc.n_condpair)
     if getattr(sc, "struct", None):
         ctx.count("probe:structure_user_type")
     if getattr(sc, "has_v", False):
